@@ -209,15 +209,17 @@ def canSign (d : EpochData) : Bool :=
   | some k => d.cur.contains ⟨0, k⟩
   | none => false
 
+/-- `update_stake_distribution(t)`: the chain's distribution is stored under `t + 1` unless something is there -/
+def updStakes (s : State) : List (Nat × Nat) :=
+  match lookup s.st.stakes (recording s.env.epoch) with
+  | some _ => s.st.stakes
+  | none => s.st.stakes ++ [(recording s.env.epoch, s.env.stakeVer)]
+
 /-- `transition_from_unregistered_to_one_of_registered_states` after the epoch data `d` was fetched -/
 def registerStep (s : State) (d : EpochData) : State :=
   let t := s.env.epoch
-  -- update_stake_distribution(t)
-  let stakes := match lookup s.st.stakes (recording t) with
-    | some _ => s.st.stakes
-    | none => s.st.stakes ++ [(recording t, s.env.stakeVer)]
-  -- inform_epoch_settings
-  let s1 : State := { s with st := { s.st with stakes := stakes }, data := some d }
+  -- update_stake_distribution(t), inform_epoch_settings
+  let s1 : State := { s with st := { s.st with stakes := updStakes s }, data := some d }
   match registerSigner s1 d with
   | (s2, false) => s2
   | (s2, true) =>
